@@ -80,7 +80,7 @@ func resultNames(c *Contract, sig *types.Signature) []string {
 func (fg *FG) call(st *State, cc *ssa.CallCommon, in ssa.Instruction, resultOf ssa.Value) []Val {
 	res := fg.call0(st, cc, in, resultOf)
 	for _, a := range cc.Args {
-		if co, ok := fg.copyOut[a]; ok {
+		for _, co := range fg.copyOut[a] {
 			fg.store(st, co.orig, fg.load(st, co.cell))
 		}
 	}
